@@ -100,6 +100,10 @@ def space(tier):
             for dyn in (0, 1):
                 for offs in ((0, 0, 0), (3, 0, 0), (0, 5, 0), (0, 0, 7), (1, 2, 3)):
                     cases.append(("legacy", accname, n, dyn, offs))
+    for (I, J, K) in [(1, 1, 1), (3, 2, 5), (2, 5, 3), (5, 3, 2), (7, 1, 4)]:
+        for (sa, sb, sc) in ((None, None, None), (200, 300, 400)):
+            for (oa, ob) in ((0, 0), (3, 5)):
+                cases.append(("gemmini", I, J, K, sa or K * 16, sb or J * 16, sc or J * 16, oa, ob))
     hists = [(0,), (0, 1), (0, 7), (2, 9, 14), (0, 1, 7, 20)]
     if tier == "thorough":
         hists += [(a, b_) for a in range(0, 24, 3) for b_ in range(1, 24, 4)] + [(1, 5, 9), (3, 3, 8), (0, 4, 11, 19), (2, 6, 10, 14, 18)]
@@ -561,6 +565,68 @@ def eval_legacy(r, accname, n, dyn, offs):
     compare(r, key, case_j, names, vals, exp, f"{accname} linalg.generic lowering (n={n}, offsets {offs})")
 
 
+def eval_gemmini(r, I, J, K, sa, sb, sc, oa, ob):
+    """linalg.generic with library_call = gemmini (quantised matmul: a, b, zero points, c): the LOOP_WS configuration words carry the tile counts
+    (dims / 16, packed K << 32 | J << 16 | I), operand addresses and row strides named in GemminiAccelerator._gemmini_loop_ws"""
+    from machines.memview import View, handlers as mem_handlers
+
+    acc = common.ctx().get_acc("gemmini")
+    M, N, Kk = I * 16, J * 16, K * 16
+    ta = f"memref<{M}x{Kk}xi8, strided<[{sa}, 1], offset: {oa}>>"
+    tb = f"memref<{Kk}x{N}xi8, strided<[{sb}, 1], offset: {ob}>>"
+    tc = f"memref<{M}x{N}xi32, strided<[{sc}, 1]>>"
+    text = (
+        "builtin.module {\n  " + common.to_text(acc.generate_acc_op()) + f"\nfunc.func @f(%a : {ta}, %b : {tb}, %c : {tc}) {{\n  %z = arith.constant 0 : i32\n"
+        '  linalg.generic {indexing_maps = [affine_map<(d0, d1, d2) -> (d0, d2)>, affine_map<(d0, d1, d2) -> (d2, d1)>, affine_map<(d0, d1, d2) -> ()>, affine_map<(d0, d1, d2) -> ()>, '
+        'affine_map<(d0, d1, d2) -> (d0, d1)>], iterator_types = ["parallel", "parallel", "reduction"], library_call = "gemmini"} '
+        f"ins(%a, %b, %z, %z : {ta}, {tb}, i32, i32) outs(%c : {tc}) {{\n  ^bb0(%x : i8, %y : i8, %p : i32, %q : i32, %o : i32):\n"
+        "    %e = arith.extsi %x : i8 to i32\n    %f = arith.extsi %y : i8 to i32\n    %m = arith.muli %e, %f : i32\n    %s = arith.addi %o, %m : i32\n    linalg.yield %s : i32\n  }\n  func.return\n}\n}\n"
+    )
+    key = f"gemmini|{(I, J, K, sa, sb, sc, oa, ob)}"
+    case_j = dict(kind="gemmini", args=[I, J, K, sa, sb, sc, oa, ob])
+    r.obs = ("gemmini", I, J, K, sa, sb, sc, oa, ob)
+    r.states = 1
+    r.sample = dict(kind="gemmini", program=text)
+    try:
+        mod = common.compile_text(text, "convert-linalg-to-accfg")
+    except common.Rejected as e:
+        r.rejected = e.kind
+        r.count("gemmini_rejected:" + str(e)[:70])
+        return
+    setup = next((op for op in mod.walk() if op.name == "accfg.setup"), None)
+    if setup is None:
+        r.rejected = "no-setup"
+        return
+    names = [p.data for p in setup.param_names]
+    h = dict(mem_handlers())
+    h.update({"accfg.setup": lambda it, op: [("state",)], "accfg.launch": lambda it, op: [("tok",)], "accfg.await": lambda it, op: []})
+    it = Interp(handlers=h, budget=20000)
+    bases = [0x10000, 0x20000, 0x30000]
+    views = [View(("a", 0), 1, oa, [M, Kk], [sa, 1], bases[0]), View(("b", 0), 1, ob, [Kk, N], [sb, 1], bases[1]), View(("c", 0), 4, 0, [M, N], [sc, 1], bases[2])]
+    try:
+        it.run_func(find_func(mod, "f"), views)
+    except (UseBeforeDef, InterpError) as e:
+        r.violate(key + "|exec", case_j, f"generated setup code cannot be evaluated: {e}")
+        return
+    vals = [it.get(v) for v in setup.values]
+    r.validated = 1
+    r.transitions += it.steps
+    pre = "k_LOOP_WS_CONFIG_"
+    exp = {
+        pre + "BOUNDS.rs1": 0, pre + "BOUNDS.rs2": (K << 32) | (J << 16) | I,
+        pre + "ADDRS_AB.rs1": bases[0] + oa, pre + "ADDRS_AB.rs2": bases[1] + ob, pre + "ADDRS_DC.rs1": 0, pre + "ADDRS_DC.rs2": bases[2],
+        pre + "STRIDES_AB.rs1": sa, pre + "STRIDES_AB.rs2": sb, pre + "STRIDES_DC.rs1": sc, pre + "STRIDES_DC.rs2": sc,
+    }
+    got = dict(zip(names, vals))
+    for k_, want in exp.items():
+        if k_ not in got:
+            r.violate(key + "|missing", case_j, f"gemmini: no value for declared field {k_}")
+            return
+        if got[k_] != want:
+            r.violate(key + "|value", case_j, f"gemmini matmul {M}x{Kk} @ {Kk}x{N} (strides {sa}, {sb}, {sc}; offsets {oa}, {ob}): field {k_} receives {got[k_]:#x} but means {want:#x}")
+            return
+
+
 # ------------------------------------------------------------------------------------------------ xdma
 
 
@@ -710,6 +776,8 @@ def evaluate(case) -> CaseResult:
         eval_xdma(r, *case[1:])
     elif kind == "legacy":
         eval_legacy(r, *case[1:])
+    elif kind == "gemmini":
+        eval_gemmini(r, *case[1:])
     else:
         eval_phs(r, *case[1:])
     r.count("cases_" + kind)
@@ -728,6 +796,8 @@ def replay(case):
         c = ("gemmx", case["geom"], case["kern"], case["var"])
     elif k == "xdma":
         c = ("xdma", case["chan"], case["byte"], _t(case["ex"]), case["L"]) + ((case["kern"], case["order"]) if case.get("kern") else ())
+    elif k == "gemmini":
+        c = ("gemmini",) + tuple(case["args"])
     elif k == "legacy":
         c = ("legacy", case["acc"], case["n"], case["dyn"], _t(case["offs"]))
     else:
